@@ -29,6 +29,33 @@ class Failure(Exception):
         self.key, self.what, self.data = key, what, data
 
 
+class Unsupported(Exception):
+    """the implementation does not offer this operation / observation on this kind of topology (it says so by raising
+    NotImplementedError, 'unsupported operand', or a missing attribute): not judged, counted"""
+
+
+def exc_failure(e, label, what, sig):
+    """classify an exception raised by nutils during an operation or observation.
+    -> raises Unsupported, or returns a Failure whose key names the innermost nutils frame (root cause, seed independent)"""
+    import traceback
+    msg = str(e)
+    if isinstance(e, NotImplementedError) or isinstance(e, TypeError) and 'unsupported operand' in msg \
+            or isinstance(e, AttributeError) and 'has no attribute' in msg:
+        raise Unsupported('{}:{}:{}'.format(label, type(e).__name__, msg[:80]))
+    where = '?'
+    frames = [fr for fr in traceback.extract_tb(e.__traceback__) if '/nutils/' in fr.filename]
+    # root cause = innermost frame in the topology / element layer (the lookup helpers in transformseq, transform, util and
+    # numeric only report that the caller asked for something that does not exist), named by function and statement
+    pick = [fr for fr in frames if fr.filename.rsplit('/', 1)[-1] in ('topology.py', 'element.py', 'mesh.py')] or frames
+    if pick:
+        fr = pick[-1]
+        where = '{}:{}:{}'.format(fr.filename.rsplit('/', 1)[-1][:-3], fr.name, ''.join((fr.line or '').split())[:44])
+    if label == 'boundary' and sig.startswith('HierarchicalTopology/SubsetTopology'):
+        # same root cause as the lost facets: HierarchicalTopology.boundary does not know the trimmed edges of its base
+        return Failure('boundary:raises:hierarchical-refinement-of-trimmed-element', '{}: {} raised {!r} ({})'.format(what, label, e, sig))
+    return Failure('{}:raises-{}@{}'.format(label, type(e).__name__, where), '{}: {} raised {!r} ({})'.format(what, label, e, sig))
+
+
 # ------------------------------------------------------------------------------------------------ bases
 
 BASES = {
@@ -226,7 +253,7 @@ def compare_cells(ctx, topo, pcells, what):
     except Failure:
         raise
     except Exception as e:
-        raise Failure('elements:raises-{}:{}'.format(type(e).__name__, sig), '{}: measuring the elements raised {!r}'.format(what, e))
+        raise exc_failure(e, 'elements', what, sig)
     want = {_tkey(c['key']): (c['v'], tuple(c['m'])) for c in pcells}
     if n != len(want):
         raise Failure('elements:len:' + sig, '{}: topology has {} elements, the model {}'.format(what, n, len(want)), dict(got=[o[0] for o in obs], want=sorted(want)))
@@ -285,7 +312,7 @@ def compare_boundary(ctx, topo, pB, vol2, what, group=None, allB=None, label=Non
     except Failure:
         raise
     except Exception as e:
-        raise Failure('{}:raises-{}:{}'.format(label, type(e).__name__, sig), '{}: {} raised {!r}'.format(what, label, e))
+        raise exc_failure(e, label, what, sig)
     stats = obs.pop('_stats', None)
     want = {tuple(f['p']): f['n'] for f in pB}
     missing = sorted(set(want) - set(obs))
@@ -331,7 +358,7 @@ def compare_interfaces(ctx, topo, pI, index, what):
     except Failure:
         raise
     except Exception as e:
-        raise Failure('interfaces:raises-{}:{}'.format(type(e).__name__, sig), '{}: interfaces raised {!r}'.format(what, e))
+        raise exc_failure(e, 'interfaces', what, sig)
     obs.pop('_stats', None)
     want = {tuple(f['p']): f for f in pI}
     missing = sorted(set(want) - set(obs))
@@ -418,7 +445,8 @@ class Replayer:
     def __init__(self):
         self.ctx = {}
         self.nodes = {}       # (base, L, json(hist prefix)) -> dict(topo, index, fail)
-        self.stats = dict(states=0, bstates=0, bfacets=0, ifacets=0, cuts=0, elements=0, groups=0, unions=0, cut_label_not_judged=0)
+        self.stats = dict(states=0, bstates=0, bfacets=0, ifacets=0, cuts=0, elements=0, groups=0, unions=0, cut_label_not_judged=0, unsupported=0)
+        self.unsupported = {}
 
     def context(self, base, L):
         if (base, L) not in self.ctx:
@@ -454,9 +482,13 @@ class Replayer:
                 try:
                     topo, comp = apply_op(ctx, parent['topo'], parent['index'], o, k)
                 except Exception as e:
-                    raise Failure('op:{}:raises-{}:{}'.format(o['op'], type(e).__name__, nesting(parent['topo'])), '{}: the operation raised {!r}'.format(what, e))
+                    raise exc_failure(e, 'op:' + o['op'], what, nesting(parent['topo']))
             node['topo'] = topo
             self.observe(ctx, topo, comp, preds[k], what, node, k, leaf=(k == len(case['hist'])), before=preds[k - 1] if k else None)
+        except Unsupported as u:
+            self.stats['unsupported'] += 1
+            self.unsupported[str(u)] = self.unsupported.get(str(u), 0) + 1
+            node['fail'] = 'inherited'
         except Failure as f:
             key = f.key
             if ctx.periodic2 and key.split(':')[0] in ('boundary', 'interfaces', 'cut', 'group'):
@@ -509,7 +541,7 @@ class Replayer:
         try:
             union = topo | comp
         except Exception as e:
-            raise Failure('op:or:raises-{}:{}'.format(type(e).__name__, nesting(topo)), '{}: the union raised {!r}'.format(uwhat, e))
+            raise exc_failure(e, 'op:or', uwhat, nesting(topo))
         uindex = compare_cells(ctx, union, before['cells'], uwhat)
         if before['bd'] and p['bd']:
             compare_boundary(ctx, union, before['B'], before['vol2'], uwhat)
@@ -519,7 +551,7 @@ class Replayer:
         try:
             union = topo.take(numpy.arange(len(topo))) | comp.take(numpy.arange(len(comp)))
         except Exception as e:
-            raise Failure('op:or:raises-{}:UnionTopology'.format(type(e).__name__), '{}: the union raised {!r}'.format(uwhat, e))
+            raise exc_failure(e, 'op:or', uwhat, 'UnionTopology')
         compare_cells(ctx, union, before['cells'], uwhat)
         self.stats['unions'] += 1
 
